@@ -10,6 +10,7 @@ func init() {
 	vHarnesses["VerifH_C12_loop"] = VerifH_C12_loop
 	vHarnesses["VerifH_C12_twojumps"] = VerifH_C12_twojumps
 	vHarnesses["VerifH_C12_moving"] = VerifH_C12_moving
+	vHarnesses["VerifH_C12_twoloops"] = VerifH_C12_twoloops
 }
 
 // VerifH_C12_loop: V().set(c,c0).mark(m).increment(c,1).jump(m, lt(c,D), emit)
@@ -195,4 +196,65 @@ func VerifH_C12_moving() {
 		}
 	}
 	vAssert("C12.moving.no-goroutine-left", vBlockedGoroutines() == 0)
+}
+
+// VerifH_C12_twoloops: two loops in sequence, each with its own mark:
+// V(v0).as(c).set($c.n,0).mark(A).increment($c.n,1).jump(A, lt($c.n,D1), emit)
+// .mark(B).increment($c.n,1).jump(B, lt($c.n,D2), emit).render($c.n).
+// The rows are those of the iterative definition (simulated below).
+func VerifH_C12_twoloops() {
+	D1 := 1 + vChoice("depth1", vParam("D1", 2))
+	D2 := D1 + 1 + vChoice("depth2", vParam("D2", 2))
+	g := &vGraph{honourLoad: false}
+	g.vs = append(g.vs, &gdbi.Vertex{ID: "v0", Label: "L", Data: map[string]interface{}{}, Loaded: true})
+	g.compiler = func(g *vGraph) gdbi.Compiler { return NewCompiler(g, IndexStartOptimize) }
+	cond := func(d int) *gripql.HasExpression {
+		return &gripql.HasExpression{Expression: &gripql.HasExpression_Condition{Condition: &gripql.HasCondition{Key: "$c.n", Condition: gripql.Condition_LT, Value: structpb.NewNumberValue(float64(d))}}}
+	}
+	inc := &gripql.GraphStatement{Statement: &gripql.GraphStatement_Increment{Increment: &gripql.Increment{Key: "$c.n", Value: 1}}}
+	stmts := []*gripql.GraphStatement{
+		sV("v0"),
+		sAs("c"),
+		{Statement: &gripql.GraphStatement_Set{Set: &gripql.Set{Key: "$c.n", Value: structpb.NewNumberValue(0)}}},
+		{Statement: &gripql.GraphStatement_Mark{Mark: "A"}},
+		inc,
+		{Statement: &gripql.GraphStatement_Jump{Jump: &gripql.Jump{Mark: "A", Emit: true, Expression: cond(D1)}}},
+		{Statement: &gripql.GraphStatement_Mark{Mark: "B"}},
+		inc,
+		{Statement: &gripql.GraphStatement_Jump{Jump: &gripql.Jump{Mark: "B", Emit: true, Expression: cond(D2)}}},
+		{Statement: &gripql.GraphStatement_Render{Render: structpb.NewStringValue("$c.n")}},
+	}
+	pipe, err := g.Compiler().Compile(stmts, nil)
+	vAssert("C12.twoloops.compiles", err == nil)
+	if err != nil {
+		return
+	}
+	rows := vRunPipe(g, pipe, 4)
+	vReach("c12.twoloops.closed")
+	// iterative definition: loop A emits n = 1..D1; each of those runs loop B
+	var want []int
+	for a := 1; a <= D1; a++ {
+		for n := a + 1; ; n++ {
+			want = append(want, n)
+			if !(n < D2) {
+				break
+			}
+		}
+	}
+	vAssert("C12.twoloops.row-count", len(rows) == len(want))
+	for v := 2; v <= D2+1; v++ {
+		nw, ng := 0, 0
+		for _, w := range want {
+			if w == v {
+				nw++
+			}
+		}
+		for _, r := range rows {
+			if f, ok := r.GetRender().AsInterface().(float64); ok && int(f) == v {
+				ng++
+			}
+		}
+		vAssert("C12.twoloops.rows-per-value", nw == ng)
+	}
+	vAssert("C12.twoloops.no-goroutine-left", vBlockedGoroutines() == 0)
 }
